@@ -320,6 +320,7 @@ fn str_to_partial_tokens<NumericTypes: EvalexprNumericTypes>(
 
             if let PartialToken::Slash = partial_token {
                 if try_skip_comment(&mut iter)? {
+                    result.push(PartialToken::Whitespace);
                     continue;
                 }
             }
